@@ -48,14 +48,17 @@ func mainLoopWithContext(L *LState, baseframe *callFrame) {
 		cf = L.currentFrame
 		inst = cf.Fn.Proto.Code[cf.Pc]
 		cf.Pc++
-		select {
-		case <-L.ctx.Done():
-			L.RaiseError(L.ctx.Err().Error())
-			return
-		default:
-			if jumpTable[int(inst>>26)](L, inst, baseframe) == 1 {
+		// the context may be removed (RemoveContext) by a host function while this loop runs
+		if ctx := L.ctx; ctx != nil {
+			select {
+			case <-ctx.Done():
+				L.RaiseError(ctx.Err().Error())
 				return
+			default:
 			}
+		}
+		if jumpTable[int(inst>>26)](L, inst, baseframe) == 1 {
+			return
 		}
 	}
 }
